@@ -38,6 +38,33 @@ def fn_node(obj):
     return node
 
 
+def checked_body(obj, signature, passes=()):
+    """the body of a method whose HEADER is part of what is translated: the parameter list must be exactly
+    `signature` (e.g. `self, etype, /, **data`: with the positional-only marker every item name stays available to
+    the event data; without it `etype=...` in the data would collide with the parameter), no decorator, and the
+    calls listed in `passes` ({callee text: argument text}) must hand the parameters on unchanged"""
+    fn = fn_node(obj)
+    if not isinstance(fn, ast.FunctionDef) or fn.decorator_list:
+        raise Untranslatable(f'{fn.name}: decorated or not a plain method')
+    a = fn.args
+    args = ast.unparse(ast.arguments(
+        posonlyargs=[ast.arg(arg=x.arg) for x in a.posonlyargs], args=[ast.arg(arg=x.arg) for x in a.args],
+        vararg=a.vararg and ast.arg(arg=a.vararg.arg), kwonlyargs=[ast.arg(arg=x.arg) for x in a.kwonlyargs],
+        kw_defaults=a.kw_defaults, kwarg=a.kwarg and ast.arg(arg=a.kwarg.arg), defaults=a.defaults))
+    if args != signature:
+        raise Untranslatable(f'signature of {fn.name} is ({args}), expected ({signature})')
+    for callee, want in dict(passes).items():
+        calls = [n for n in ast.walk(fn) if isinstance(n, ast.Call) and ast.unparse(n.func) == callee]
+        for c in calls:
+            got = ', '.join([ast.unparse(x) for x in c.args] + [('**' + ast.unparse(k.value)) if k.arg is None
+                                                                 else f'{k.arg}={ast.unparse(k.value)}' for k in c.keywords])
+            if got != want:
+                raise Untranslatable(f'{callee}({got}), expected {callee}({want})')
+        if not calls:
+            raise Untranslatable(f'no call of {callee}')
+    return list(fn.body)
+
+
 def find_stop_block():
     """the `if started_blocks:` statement of Circuit.run_forever (the save / stamp / clean-up part)"""
     from edzed import simulator
@@ -454,7 +481,8 @@ def act_targets():
     from edzed import addons
     return [
         dict(name='eventActs', doc='addons.AddonPersistence.event',
-             node=lambda: list(fn_node(addons.AddonPersistence.event).body),
+             node=lambda: checked_body(addons.AddonPersistence.event, 'self, etype, /, **data',
+                                       {'super().event': 'etype, **data'}),
              params=[('superRaises', 'Bool'), ('persistent', 'Bool'), ('ready', 'Bool'), ('sync', 'Bool'),
                      ('inited', 'Bool'), ('saveRaises', 'Bool')],
              bools={'self.persistent': 'persistent', 'self.sync_state': 'sync'},
